@@ -217,3 +217,41 @@ def persisted_names(si: int, cached: bool, other_mapping: bool) -> None:
     if True:
         assert res == _SKIP[si], "script %r: the last evaluation gives %r, without the middle step it gives %r: a literal's value survived between evaluations" % (sc, res, _SKIP[si])
     hlib.done()
+
+
+def lambda_after_failed_define(how: int, reps: int) -> None:
+    """
+    pre: 0 <= how <= 2 and 1 <= reps <= 40
+    post: True
+    """
+    # an eval stores a lambda in the host's names and then FAILS (undefined name / runtime error / its ops limit); later
+    # evals that call the lambda - for this or another names mapping - behave as if the defining eval had succeeded
+    hlib.enter(locals())
+    how, reps = hlib.concrete(how, 0, 2), hlib.concrete(reps, 1, 40)
+    if _POOL:
+        p = _POOL.pop()
+    else:
+        with hlib.native(unwalled=True):
+            p = SqParser()
+    with hlib.native():
+        n1 = {'k': 1}
+        try:
+            p.eval("add_k = v => v + k\n" + ["nosuch", "1 / 0", "[1, 2, 3, 4, 5, 6, 7, 8, 9] | map(w => w) | len"][how], n1, max_ops_evaluated=12)
+        except Exception:
+            pass
+        n2 = {'k': 100, 'add_k': n1.get('add_k')}
+        outs = []
+        for _ in range(reps):
+            try:
+                outs.append(('ok', repr(p.eval("add_k(1)", n2, max_ops_evaluated=20))))
+            except Exception as e:
+                outs.append(('err', type(e).__name__))
+        try:
+            own = ('ok', repr(p.eval("add_k(1)", n1, max_ops_evaluated=20)))
+        except Exception as e:
+            own = ('err', type(e).__name__)
+        have = 'add_k' in n1
+    hlib.assume(have)
+    assert all(o == ('ok', "Decimal('101')") for o in outs), "a lambda defined by an eval that later failed, called for another names mapping (k = 100): %r" % (sorted(set(outs)),)
+    assert own == ('ok', "Decimal('2')"), "a lambda defined by an eval that later failed, called for its own names mapping: %r" % (own,)
+    hlib.done()
